@@ -134,7 +134,11 @@ pub fn ray_hits(p: &PosedPoly, ray: &RayD, band: f64) -> Hit {
         return Hit::Undecided;
     }
     let t = -lo[2] / ld[2];
-    if t.abs() < 1e-4 {
+    // which side of the plane the origin lies on is only decided when its distance exceeds what f32 can resolve
+    // there: the library maps the ray into the polygon's frame with an inverted 4x4 f32 matrix, whose error grows
+    // with the distance from the global origin (observed: ~3e-4 m at 50 m)
+    let far = o.iter().chain(pos.iter()).fold(0.0f64, |a, b| a.max(b.abs()));
+    if t.abs() * ld[2].abs() < 1e-4 + 4e-5 * far {
         return Hit::Undecided;
     }
     let x = lo[0] + t * ld[0];
